@@ -332,7 +332,7 @@ func extractHandshake(x *extractor) {
 	}
 	u.pf("def opUnsupportedCode : Nat := %d\n", opu)
 
-	// receive loops: `case errors.Is(err, errUnknownExtendedPacket):` with an empty body, then the packet is queued
+	// receive loops: errUnknownExtendedPacket is let through (empty switch case, or excluded in the condition), then the packet is queued
 	nonFatal := func(name, queue string) bool {
 		fd := pi.funcDecl(name)
 		if fd == nil || fd.Body == nil {
@@ -347,7 +347,19 @@ func extractHandshake(x *extractor) {
 			}
 			for i, s := range blk.List {
 				is, isIf := s.(*ast.IfStmt)
-				if !isIf || pi.nodeText(is.Cond) != "err != nil" || len(is.Body.List) != 1 || i == 0 || i+1 >= len(blk.List) {
+				if !isIf || is.Init != nil || is.Else != nil || i == 0 || i+1 >= len(blk.List) {
+					continue
+				}
+				// shape 2: `if err != nil && !errors.Is(err, errUnknownExtendedPacket) { …; break|return … }`:
+				// the unknown-extended error skips the if, every other error leaves the loop
+				if pi.nodeText(is.Cond) == "err != nil && !errors.Is(err, errUnknownExtendedPacket)" && rpTerminates(is.Body) &&
+					pi.nodeText(blk.List[i-1]) == "pkt, err = makePacket(rxPacket{pktType, pktBytes})" &&
+					pi.nodeText(blk.List[i+1]) == queue {
+					ok = true
+					continue
+				}
+				// shape 1: `if err != nil { switch { case errors.Is(err, errUnknownExtendedPacket): default: … } }`
+				if pi.nodeText(is.Cond) != "err != nil" || len(is.Body.List) != 1 {
 					continue
 				}
 				if pi.nodeText(blk.List[i-1]) != "pkt, err = makePacket(rxPacket{pktType, pktBytes})" {
